@@ -651,14 +651,14 @@ func (in *Interp) iterOf(n *Node, v interface{}) iter {
 			}
 			return nil, v.Interface(), true
 		}}
-	case intsRange:
-		i := int64(0)
+	case *intsRange:
+		// a cursor, like a channel or a custom Ranger: what has been handed out is gone, also for a second range
 		return iter{true, func() (interface{}, interface{}, bool) {
-			if r.from+i >= r.to {
+			if r.from+r.done >= r.to {
 				return nil, nil, false
 			}
-			i++
-			return i - 1, r.from + i - 1, true
+			r.done++
+			return r.done - 1, r.from + r.done - 1, true
 		}}
 	}
 	rv := reflect.ValueOf(v)
@@ -823,7 +823,7 @@ func equal(a, b interface{}) bool {
 	return reflect.DeepEqual(a, b)
 }
 
-type intsRange struct{ from, to int64 }
+type intsRange struct{ from, to, done int64 }
 
 func (in *Interp) lookupVar(name string) (interface{}, bool) {
 	for fr := in.scope; fr != nil; fr = fr.parent {
@@ -1163,6 +1163,12 @@ func (in *Interp) call(at *Node, name string, argExprs []*Expr, piped interface{
 	if f, ok := in.Funcs[name]; ok {
 		return f(in, args)
 	}
+	if strings.HasPrefix(name, "ifunc:") {
+		// a variable holding a Go function that returns interface{}: the value inside is the result
+		need(0)
+		k, _ := strconv.Atoi(name[len("ifunc:"):])
+		return IfuncVals[k]
+	}
 	switch name {
 	case "upper":
 		need(1)
@@ -1194,7 +1200,7 @@ func (in *Interp) call(at *Node, name string, argExprs []*Expr, piped interface{
 		if !ok1 || !ok2 || b <= a {
 			in.fail(at, "argument-kind", "ints(%v, %v)", args[0], args[1])
 		}
-		return intsRange{int64(a), int64(b)}
+		return &intsRange{from: int64(a), to: int64(b)}
 	case "slice", "array":
 		return append([]interface{}{}, args...)
 	case "map":
@@ -1331,6 +1337,18 @@ func (in *Interp) APIYield(name string, ctx interface{}, withCtx bool) bool {
 	saved := in.ctx
 	if withCtx {
 		in.ctx = ctx
+	}
+	if len(def.node.Params) > 0 {
+		// no arguments: every parameter has its default value
+		in.push(nil)
+		defer in.pop()
+		for _, p := range def.node.Params {
+			if p.E == nil {
+				in.scope.vars[p.Name] = false
+			} else {
+				in.scope.vars[p.Name] = in.eval(def.node, p.E)
+			}
+		}
 	}
 	in.list(def.node.Body)
 	in.ctx = saved
